@@ -33,7 +33,8 @@ RULE = ("corpus = seeded random statements (select/set-operation/insert/update/d
         "random render history of 12-40 operations; the process monitor renders the corpus and a sign-flipped twin of every "
         "program in child interpreters that differ in PYTHONHASHSEED and in the order in which the objects are rendered "
         "(forward / reverse / shuffled) - digests per object must agree; non-trivial = the object rendered non-empty SQL in at least one "
-        "context and the history repeated at least one (object, op, context) key; distinct = distinct program hash")
+        "context and the history repeated at least one (object, op, context) key; distinct = distinct program hash"
+        " also: module-level state and interpreter settings snapshotted per worker, renders under changed decimal precision / rounding / TZ, renders aborted half-way by a refusing parameterizer, names beyond identifier limits, an aliased INSERT target under threads, a statement too deep to render. (DESIGN.md 6a)")
 ASSUMPTIONS = [
     "hash seeds are sampled (4 quick / 24 thorough), not all 2^64",
     "thread interleavings are those produced by switchinterval=1us plus seeded sleep(0) injection at LINE events; "
